@@ -46,7 +46,9 @@ Proof. exact example_valid. Qed.
 Print Assumptions C08_example_valid.
 
 (* ---- schemas with references (Model/OasRef.v): a value written as a type name, a type choice (@a | @b), a scalar with the rule
-   type: "@name", type names among the alternatives of `or`, and additionalProperties naming a type are converted to $ref; `types` are the registered types, the components are their conversions.  A reference accepts what the
+   type: "@name", type names among the alternatives of `or`, and additionalProperties naming a type are converted to $ref; an
+   object with key shortcuts (`@name: value`) gets additionalProperties: {"anyOf": [what the rule names, the values of the shortcuts -
+   and of every member whose quoted key begins with @, as the converter does]}; `types` are the registered types, the components are their conversions.  A reference accepts what the
    type accepts (insth h: by a derivation of height h - so recursive types are covered).  Every accepted value is valid
    against the converted schema with the references resolved in the components ... *)
 Theorem C08_ref_sound : forall types, types_accepted types ->
